@@ -1,4 +1,5 @@
 """C08 — JSON form has the documented shape and round-trips."""
+import re
 from ..lib import facts, mir, src as S
 from . import common_registry as cr, c06
 from ..lib.mir import is_call, is_adt_agg, agg_field, path_str
@@ -194,7 +195,7 @@ def check_type(chk, sf, short, feats, cfg, reg_de=True):
             if wantp is None:
                 chk.expect(ssi is None, "R8.2", okey, fwhere, "member is documented as always present; skip_serializing_if = %r" % ssi, cfg)
             else:
-                ok = ssi == wantp and fld["ty"].startswith(PRED_TYPE[wantp]) and (dflt is True or not reg_de)
+                ok = _pred_name(ssi) == wantp and fld["ty"].startswith(PRED_TYPE[wantp]) and (dflt is True or not reg_de)
                 detail = "skip_serializing_if = %r (documented: omitted when empty via %s), type %s, default: %s" % (ssi, wantp, fld["ty"][:30], dflt)
                 if ssi is not None and dflt is not True and reg_de:
                     detail += " -- an omitted member without `default` cannot be read back"
@@ -263,6 +264,15 @@ def provenance(chk, prog, cfg):
             ["derived" if derived(i) else "HAND-WRITTEN" for i in si], ["derived" if derived(i) else "HAND-WRITTEN" for i in di] or "absent"), config=cfg)
 
 
+def _pred_name(path):
+    """`crate::prelude::vec::Vec::is_empty`, `Vec::<T>::is_empty`, `Vec::is_empty` name the same function: <Type>::<method> without generics / module prefix"""
+    if not isinstance(path, str):
+        return path
+    p = re.sub(r"::\s*<[^<>]*(<[^<>]*>[^<>]*)*>", "", path.replace(" ", ""))
+    parts = [x for x in p.split("::") if x]
+    return "::".join(parts[-2:]) if len(parts) >= 2 else p
+
+
 def predicates(chk, prog, cfg):
     b = cr.anchor(chk, prog, "ty::path::Path::is_empty")
     if b is not None:
@@ -271,9 +281,14 @@ def predicates(chk, prog, cfg):
     cands = [p for p in prog.fns if mir.strip_generics(p) == "<scale_info::ty::path::Path as core::default::Default>::default"]
     if len(cands) == 1:
         b = prog.body(cands[0])
-        rt = b.return_term()
-        ok = is_adt_agg(rt, "scale_info::ty::path::Path") and is_call(agg_field(rt, "segments"), "alloc::vec::Vec::new", nargs=0)
-        chk.expect(ok, "R8.2", "Path::default=no-segments", b.where(), path_str(rt), cfg)
+        from ..lib import symrun, absint as _ai
+        try:
+            v = symrun.Run(prog).run(cands[0], [])
+            ok = symrun.is_struct(v, "scale_info::ty::path::Path") and symrun.field(v, "segments") == symrun.EMPTY_VEC
+            detail = "Path::default() = %s" % symrun.show(v)
+        except _ai.Unrecognised as e:
+            ok, detail = False, "cannot interpret: %s" % e
+        chk.expect(ok, "R8.2", "Path::default=no-segments", b.where(), detail, cfg)
     else:
         chk.anchor_missing("Default for Path")
 
